@@ -62,6 +62,8 @@ def OR(*xs):
         return FALSE
     if len(out) == 1:
         return out[0]
+    if len(out) == 2 and (out[1] == ('not', out[0]) or out[0] == ('not', out[1])) and out[0][0] in ('cmp', 'not'):
+        return TRUE                    # g or not g, with g a comparison (boolean valued, terms are pure)
     return ('bool', 'or', tuple(out))
 
 
